@@ -2,6 +2,7 @@
 import os
 
 import addrcommon as ac
+import fetchcommon as fc
 import vp
 
 
@@ -41,12 +42,14 @@ def run(tier):
         chk.violation("pointer operation outside the C05 Contract: %s" % ac.pretty(ev), ac.pretty(ev))
     for ev in events[0:2] + events[len(events) // 2:len(events) // 2 + 2]:
         chk.sample(ac.pretty(ev))
-    chk.count(evaluations=len(events), distinct=len(combos), traces=1)
+    # the operand itself lives in sandbox memory and changes between reads
+    nf, cf = fc.judge(chk, wd, "c05", "C05", ("wasm32", "ilp64", "lp16"))
+    chk.count(evaluations=len(events) + nf, distinct=len(combos) + len(cf), traces=1)
     chk.cov["exhaustive"] = True
     chk.cov["exhaustive_scope"] = "8/16-bit operands exhaustively (run-summarised) for + - += -= [] &[] on 11 pointee kinds " \
                                   "x 3 bases, 3 guest ABIs, mask-based and owner-comparing range checks (pointer of the first / last created of three live sandboxes); 32/64-bit operands at boundary values (accepted-interval ends, type limits, " \
                                   "operands whose byte offset crosses 2^16..2^64) and seeded random values; plain, tainted " \
-                                  "and tainted_volatile operands; null bases; ++/-- pre/post"
+                                  "and tainted_volatile operands; null bases; ++/-- pre/post; operands read from a sandbox-memory cell that is rewritten after every read"
     chk.assumptions += ["flag-abort build; strides are the harness' own statement of the wasm32 sizes",
                         "32/64-bit operands are not exhaustive"]
     return chk.finish(rule="one evaluation = one single operation or one run of consecutive operands with one outcome, "
